@@ -48,7 +48,7 @@ class Project:
         return t
 
 
-def generate(rng, rep=None, odd_names=False, n_exe=2, n_lib=1, with_commands=True):
+def generate(rng, rep=None, odd_names=False, n_exe=2, n_lib=1, with_commands=True, with_tests=True):
     """Returns a Project. Options are raw strings beginning with -D so that gcc-like tools accept any content."""
     p = Project()
     L = p.lines
@@ -115,4 +115,22 @@ def generate(rng, rep=None, odd_names=False, n_exe=2, n_lib=1, with_commands=Tru
         L.append("copy_file(%s, 'gen.in')" % pyrepr('copied.txt'))
         L.append("alias('everything', [exe0] + list(bs))")
         L.append("default(exe0, *bs)")
+    if with_tests:
+        # plain test with environment, and a test driver with children (nested quoting: the child command line is
+        # written, shell-quoted as a whole and handed to the driver as ONE argument)
+        targs = [adversarial_arg(rng, rep) for _ in range(rng.randint(1, 3))]
+        tenv = {'TV': adversarial_arg(rng, rep)} if rng.random() < 0.6 else {}
+        L.append("test([%s, 'plaintest'] + %s, environment=%s)" % (pyrepr(shtools.ARGVREC), pyrepr(targs), pyrepr(tenv)))
+        p.steps.append({'kind': 'test', 'args': ['plaintest'] + targs, 'env': tenv})
+        dargs = [adversarial_arg(rng, rep) for _ in range(rng.randint(0, 2))]
+        L.append("drv = test_driver([%s, 'driver'] + %s)" % (pyrepr(shtools.ARGVREC), pyrepr(dargs)))
+        children = []
+        for k in range(rng.randint(1, 3)):
+            cargs = ['child%d' % k] + [rng.choice(['$x', 'a$$b', "it's", '$(V)', '${v}']) if rng.random() < 0.4 else adversarial_arg(rng, rep)
+                                     for _ in range(rng.randint(0, 3))]
+            if k == 0:
+                cargs.append(rng.choice(['$x', 'a$$b', '$(V)', '${v}', "q'$"]))     # every driver sees a $ in a child argument
+            L.append("test([%s] + %s, driver=drv)" % (pyrepr(shtools.ARGVREC), pyrepr(cargs)))
+            children.append([shtools.ARGVREC] + cargs)
+        p.steps.append({'kind': 'test_driver', 'args': ['driver'] + dargs, 'children': children})
     return p
